@@ -4,6 +4,7 @@ import (
 	"fmt"
 	"go/token"
 	"go/types"
+	"sort"
 	"strings"
 
 	"golang.org/x/tools/go/ssa"
@@ -469,4 +470,213 @@ func reachesWriter(v ssa.Value, valueSinksOnly bool) bool {
 		return false
 	}
 	return rec(v, 0)
+}
+
+// retainsState: a value of type t can carry something over from a previous decode: it has pointer,
+// slice, map or interface parts (the reflective decoder decodes into an existing non-nil pointer in
+// place and appends to slices), or it is a tagged union (the sum-type decoder does not clear the
+// alternatives it did not select).
+func retainsState(t types.Type, depth int) bool {
+	if depth > 6 {
+		return false
+	}
+	switch u := t.Underlying().(type) {
+	case *types.Pointer, *types.Slice, *types.Map, *types.Interface:
+		return true
+	case *types.Array:
+		return retainsState(u.Elem(), depth+1)
+	case *types.Struct:
+		for i := 0; i < u.NumFields(); i++ {
+			if u.Field(i).Name() == "SumType" {
+				return true
+			}
+			if retainsState(u.Field(i).Type(), depth+1) {
+				return true
+			}
+		}
+	}
+	return false
+}
+
+// freshDecodeTargets: a decode target that is filled inside a loop and then kept (appended, stored)
+// must be a fresh variable in every iteration when its type can retain state from the previous one.
+func (c *Ctx) freshDecodeTargets(rule string, rels ...string) int {
+	n := 0
+	for _, f := range c.moduleFuncs(rels...) {
+		allInstrs(f, func(b *ssa.BasicBlock, in ssa.Instruction) {
+			cl, ok := in.(*ssa.Call)
+			if !ok || !inLoop(b) {
+				return
+			}
+			q := callQName(&cl.Call)
+			if q != modPath+"/tlb.Unmarshal" && q != modPath+"/tlb.Decoder.Unmarshal" && q != modPath+"/tl.Unmarshal" {
+				return
+			}
+			target := cl.Call.Args[len(cl.Call.Args)-1]
+			if mi, ok := target.(*ssa.MakeInterface); ok {
+				target = mi.X
+			}
+			al, ok := target.(*ssa.Alloc)
+			if !ok {
+				return
+			}
+			et := al.Type().(*types.Pointer).Elem()
+			if !retainsState(et, 0) {
+				return
+			}
+			n++
+			key := fmt.Sprintf("%s decodes into %s inside a loop", fnName(f), al.Comment)
+			// fresh per iteration: the variable's allocation is inside the loop. A variable declared before the
+			// loop is fine only if it is not kept (its value is not appended/stored after the decode)
+			if inLoop(al.Block()) {
+				c.ok(rule, key, cl.Pos(), "the target is a new variable in every iteration")
+				return
+			}
+			kept := false
+			for _, r := range realRefs(al) {
+				if u, ok := r.(*ssa.UnOp); ok && u.Op == token.MUL && inLoop(u.Block()) {
+					for _, r2 := range realRefs(u) {
+						switch y := r2.(type) {
+						case *ssa.Call:
+							if bi, ok := y.Call.Value.(*ssa.Builtin); ok && bi.Name() == "append" {
+								kept = true
+							}
+						case *ssa.Store:
+							kept = true
+						case *ssa.MakeInterface:
+							_ = y
+						}
+					}
+				}
+			}
+			if kept {
+				c.bad(rule, key, cl.Pos(), fmt.Sprintf("%s decodes every element of a list into the single variable %s declared outside the loop and keeps a copy of it: %s has pointer/slice/union parts, which the decoder fills in place, so later elements overwrite or leak into earlier ones", fnName(f), al.Comment, et.String()))
+			} else {
+				c.ok(rule, key, cl.Pos(), "the variable is declared outside the loop but its value is not kept")
+			}
+		})
+	}
+	return n
+}
+
+// recvPath: addr is a chain of field selections rooted at the receiver parameter p: returns "A.B".
+func recvPath(p *ssa.Parameter, addr ssa.Value) (string, bool) {
+	var parts []string
+	v := addr
+	for {
+		switch x := v.(type) {
+		case *ssa.FieldAddr:
+			_, n, ok := fieldOf(x)
+			if !ok {
+				return "", false
+			}
+			parts = append([]string{n}, parts...)
+			v = x.X
+			continue
+		case *ssa.UnOp:
+			if x.Op == token.MUL {
+				// load of a pointer-typed field then further selection: stop (different object)
+				return "", false
+			}
+		case *ssa.Parameter:
+			if x == p && len(parts) > 0 {
+				return strings.Join(parts, "."), true
+			}
+		}
+		return "", false
+	}
+}
+
+// partialAssign: a hand-written decoder that fills some sub-fields of an embedded group
+// (a.AddrStd.X, a.AddrStd.Y, …) must fill all of the sub-fields it ever fills of that group on every
+// success path through that group: a sub-field assigned only under a condition on the decoded data
+// keeps the value of the previous decode when the receiver is reused.
+func (c *Ctx) partialAssign(rule string, rels ...string) int {
+	n := 0
+	for _, f := range c.moduleFuncs(rels...) {
+		if f.Name() != "UnmarshalTLB" || len(f.Params) == 0 || f.Parent() != nil {
+			continue
+		}
+		recv := f.Params[0]
+		if _, ok := recv.Type().(*types.Pointer); !ok {
+			continue
+		}
+		type ev struct {
+			blk *ssa.BasicBlock
+			in  ssa.Instruction
+		}
+		groups := map[string]map[string][]ev{}
+		add := func(path string, b *ssa.BasicBlock, in ssa.Instruction) {
+			i := strings.Index(path, ".")
+			if i < 0 {
+				return
+			}
+			g, sub := path[:i], path[i+1:]
+			if groups[g] == nil {
+				groups[g] = map[string][]ev{}
+			}
+			groups[g][sub] = append(groups[g][sub], ev{b, in})
+		}
+		allInstrs(f, func(b *ssa.BasicBlock, in ssa.Instruction) {
+			switch x := in.(type) {
+			case *ssa.Store:
+				if p, ok := recvPath(recv, x.Addr); ok {
+					add(p, b, in)
+				}
+			case *ssa.Call:
+				if bi, ok := x.Call.Value.(*ssa.Builtin); ok && bi.Name() == "copy" {
+					dst := x.Call.Args[0]
+					if sl, ok := dst.(*ssa.Slice); ok {
+						if p, ok := recvPath(recv, sl.X); ok {
+							add(p, b, in)
+						}
+					}
+				}
+			}
+		})
+		var gnames []string
+		for g := range groups {
+			gnames = append(gnames, g)
+		}
+		sort.Strings(gnames)
+		for _, g := range gnames {
+			subs := groups[g]
+			if len(subs) < 2 {
+				continue
+			}
+			n++
+			key := fmt.Sprintf("%s fills %s.{%s}", fnName(f), g, strings.Join(sortedKeys(subs), ","))
+			var missing []string
+			for _, sp := range successPoints(f, 0) {
+				have := map[string]bool{}
+				for sub, evs := range subs {
+					for _, e := range evs {
+						if e.blk == sp.Block || e.blk.Dominates(sp.Block) {
+							have[sub] = true
+						}
+					}
+				}
+				if len(have) == 0 || len(have) == len(subs) {
+					continue
+				}
+				for sub := range subs {
+					if !have[sub] {
+						missing = append(missing, fmt.Sprintf("%s.%s on the success exit at %s", g, sub, c.rel(sp.Ret.Pos())))
+					}
+				}
+			}
+			sort.Strings(missing)
+			c.check(len(missing) == 0, rule, key, f.Pos(), "every success exit through the group assigns all of its sub-fields", fmt.Sprintf("%s assigns part of %s but not %s: decoding into a reused value keeps the field of the previous decode (e.g. an address without anycast decoded after one with anycast keeps the anycast)", fnName(f), g, strings.Join(missing, "; ")))
+		}
+	}
+	return n
+}
+
+func sortedKeys[T any](m map[string]T) []string {
+	var out []string
+	for k := range m {
+		out = append(out, k)
+	}
+	sort.Strings(out)
+	return out
 }
